@@ -14,6 +14,7 @@ from common import GEN, Unsupported, write_if_changed, assert_repo  # noqa: E402
 TRANSLATORS = [
     # module, output files
     ('gen_lexer', ['Atoms.v', 'Rules.v', 'CaseTabs.v', 'KwTabs.v']),
+    ('gen_splitter', ['SplitTab.v']),
 ]
 
 
